@@ -7,7 +7,7 @@ from .enc import NONE_I
 from . import tlc
 
 LIT_KINDS = ['bin', 'bools', 'bitarray', 'hex', 'Bits', 'bytes', 'tuple', 'BitArray', 'oct', 'ConstBitStream',
-             'bytearray', 'BitStream']
+             'bytearray', 'BitStream', 'bitarray_le']
 
 
 def kind_ok(kind, n):
@@ -93,4 +93,34 @@ def programs_from_edges(rows, classes, lsb0=False, ba=False, chunk=100, all_pos=
                     call['drop'] = [k for k in ()]  # results of earlier calls are dropped below
                     call = dict(call, drop=['r*'])
                 cur.append(call)
+    return progs
+
+
+def programs_from_histories(hists):
+    """Behaviours of the Ref machine (spec/Ref.tla, printed by `tlc -simulate`) as programs: the initial objects are
+    built directly, then every call of the history is performed; results the machine does not track are dropped."""
+    progs = []
+    for n, h in enumerate(hists):
+        calls = []
+        for j, oid in enumerate(('a', 'b', 'c')):
+            r = h['init'][oid]
+            calls.append(mk(oid, r['c'], r['v'], MEM_ROUTES[(n + j) % len(MEM_ROUTES)], r['p'] if r['p'] >= 0 else NONE_I))
+        for i, c in enumerate(h['calls']):
+            c = dict(c)
+            xs = []
+            for x in c.get('xs', []):
+                x = dict(x)
+                if x['k'] == 'lit':
+                    for j in range(len(LIT_KINDS)):
+                        kind = LIT_KINDS[(n + i + j) % len(LIT_KINDS)]
+                        if kind_ok(kind, len(x['v'])):
+                            x['kind'] = kind
+                            break
+                xs.append(x)
+            c['xs'] = xs
+            if c['op'] == 'setopt':
+                c.pop('t', None)
+            c['drop'] = ['r*']
+            calls.append(c)
+        progs.append({'calls': calls})
     return progs
